@@ -56,7 +56,7 @@ SIM_NOTE = "simulated transport and broker model are the environment model; virt
 SIM_TECH = "runtime monitoring: offline checker over the recorded wire/API history of the real client in a virtual-time simulated network, ASan/UBSan"
 CLAIMS.update({
     "C01": ("exploration", "successful QoS 1/2 completions are checked against the broker-side history (request as sent, genuine final ack delivered before completion, handler values equal the ack's) over thousands of seeded schedules with faults, reordering, chunking, id collisions and forged acks at quiescent points", SIM_NOTE, SIM_TECH, "simcheck"),
-    "C02": ("fault_enumeration", "every byte boundary of reference workloads is used as a crash point (both directions, plus 'delivered but reported failed'), crossed with outcomes of the next attempt; bounded-liveness oracle after a fault-free suffix of 120 virtual seconds", SIM_NOTE + "; 'eventually' decided as 'within 120 virtual seconds'", SIM_TECH + "; exhaustive single-fault enumeration per workload", "simcheck"),
+    "C02": ("fault_enumeration", "every byte boundary of reference workloads is used as a crash point (both directions, plus 'delivered but reported failed'), crossed with outcomes of the next attempt; bounded-liveness oracle after a fault-free suffix of 120 virtual seconds; retransmission rule (outstanding publishes are on the next connection before any newer QoS>0 publish), also judged with a new publish placed at every idle point / handler boundary of sweep bases", SIM_NOTE + "; 'eventually' decided as 'within 120 virtual seconds'", SIM_TECH + "; exhaustive single-fault enumeration per workload", "simcheck"),
     "C03": ("exploration", "per-publish transmission histories (bytes, DUP, write results, PUBREL position) from crash-point sweeps and QoS 2 heavy seeded mixes are checked against the sender discipline", SIM_NOTE, SIM_TECH, "simcheck"),
     "C04": ("exploration", "the broker model sends tagged QoS 0/1/2 messages and retransmits like a conformant sender; acknowledgement and delivery histories are checked; four genuine defects of the current tree are recorded as known findings with exact keys", SIM_NOTE, SIM_TECH, "simcheck"),
     "C05": ("exploration", "terminal actions at every idle point of base scenarios; exactly-once / not-inline / drained-without-time-advance are observed directly (counting functors, io_context::stopped())", SIM_NOTE, SIM_TECH + "; enumerated interleaving points", "simcheck"),
